@@ -16,9 +16,10 @@ unnoticed, and so that the two repairs the model anticipates flip the model auto
   gen_f141_fixed         false: add_fields re-parses the stored object into `BTreeMap<&str, Value>` (borrowed keys,
                         finding F141);  true: into owned keys
   gen_f142_fixed         serde_json is built with `float_roundtrip` (finding F142; used by the driver only)
-  gen_jsonvisitor_methods / gen_jsonvisitor_strip_raw / gen_serdemap_methods
-                        which `Visit` methods the two visitors override (everything else falls back to record_debug)
-                        and which of them strip an `r#` prefix
+  gen_jsonvisitor_methods / gen_jsonvisitor_strip_raw / gen_serdemap_methods / gen_serdestruct_methods
+                        which `Visit` methods the visitors override (everything else falls back to record_debug)
+                        and which of them strip an `r#` prefix; `record_u128` / `record_i128` overrides of the serde
+                        visitors (native 128-bit integers) are followed by the model (serde_u128_native / serde_i128_native)
   gen_jsonvisitor_log_skip   which JsonVisitor methods skip `log.`-prefixed names, and only under
                         #[cfg(feature = "tracing-log")], as the FIRST match arm (the model's feat_log / log_skipped)
   gen_lifecycle         fmt_subscriber.rs: per lifecycle callback the field lists of its `with_event_from_span!` uses
@@ -272,6 +273,29 @@ def main(repo, _out=None):
     for n, (_s, b) in sfns.items():
         if b and "serialize_entry(field.name()," not in norm(b):
             unrec.append("SerdeMapVisitor::%s does not write field.name() verbatim" % n)
+    # 128-bit integers: no override = the `Visit` default (record_debug: a STRING of decimal digits).  An override that hands the
+    # value to the serializer as a native integer (`serialize_entry(field.name(), &value)`: serde_json prints a bare number of up
+    # to 39 digits) is FOLLOWED by the model (JsonModel.serde_u128_native / serde_i128_native are read off this list), so that
+    # the correspondence keeps agreeing and the oracle / the theorems C14_wide_integer_* judge the behaviour; any other body
+    # is not recognised.
+    def native_int_body(b, call):
+        return bool(re.fullmatch(r"\{? ?if self\.state\.is_ok\(\) \{ self\.state = self\.serializer\.%s\(field\.name\(\), &value\);? \} ?\}?" % call, norm(b or "")))
+    for n in ("record_u128", "record_i128"):
+        if n in sfns and not native_int_body(sfns[n][1], "serialize_entry"):
+            unrec.append("SerdeMapVisitor::%s: body is not `serialize_entry(field.name(), &value)`" % n)
+
+    # ---- SerdeStructVisitor (tracing-serde's struct-shaped twin; not used by the JSON formatter, must make the same choices)
+    st = impl_body(serde, r"impl\s*<S>\s*Visit\s+for\s+SerdeStructVisitor\s*<S>[^{]*\{", unrec, "impl Visit for SerdeStructVisitor")
+    stfns = fns_in(st)
+    st_methods = sorted(stfns)
+    for n, (_s, b) in stfns.items():
+        if b and "serialize_field(field.name()," not in norm(b):
+            unrec.append("SerdeStructVisitor::%s does not write field.name() verbatim" % n)
+    for n in ("record_u128", "record_i128"):
+        if n in stfns and not native_int_body(stfns[n][1], "serialize_field"):
+            unrec.append("SerdeStructVisitor::%s: body is not `serialize_field(field.name(), &value)`" % n)
+    if st_methods != sm_methods:
+        unrec.append("SerdeStructVisitor overrides %s, SerdeMapVisitor %s" % (st_methods, sm_methods))
 
     # ---- serde_json features
     m = re.search(r"(?m)^serde_json\s*=\s*\{([^}]*)\}", toml)
@@ -299,6 +323,7 @@ def main(repo, _out=None):
         "Definition gen_jsonvisitor_methods : list string := %s." % coq_strs(jv_methods),
         "Definition gen_jsonvisitor_strip_raw : list string := %s." % coq_strs(jv_strip),
         "Definition gen_serdemap_methods : list string := %s." % coq_strs(sm_methods),
+        "Definition gen_serdestruct_methods : list string := %s." % coq_strs(st_methods),
         "Definition gen_jsonvisitor_log_skip : list string := %s." % coq_strs(jv_log),
         "Definition gen_lifecycle : list string := %s." % coq_strs(lifecycle),
         "Definition gen_lifecycle_parent_is_span : bool := %s." % b(life_parent),
